@@ -24,7 +24,9 @@
   the code at the pinned snapshot (flag `fixed := false`) it does not cover off-curve points — the
   legacy definitions are kept only to state the counterexample theorems on inputs where it is valid.
 
-  `fixed = true` mirrors the current source (after the five `fix:` commits of this property),
+  `fixed = true` mirrors the current source (after the seven `fix:` commits of this property; the two
+  latest - SchnorrSign key length, recovery at infinity - have their pinned-snapshot models in
+  `schnorrSignLegacyPanics` / `recoverLegacy`),
   `fixed = false` mirrors the source at the pinned snapshot 8e65205a.
   Go panics are `none` in functions returning `Option` where a panic is reachable.
 -/
@@ -243,9 +245,11 @@ def ecdsaSignRfc (H : Hash) (priv hash : Bytes) : Option (Nat × Nat) :=
 
 /-! ### recover -/
 
-/-- `Signature.recover(pubkey, m, recid)`; `none` = false. The point may be infinite (`some none`),
-    in which case the Go code leaves garbage in `pubkey`. -/
-def recover (r s m recid : Nat) : Option Point :=
+/-- `Signature.recover(pubkey, m, recid)` AT THE PINNED SNAPSHOT (before `fix: Signature.recover refuses a
+    result at infinity`); `none` = false. The point may be infinite (`some none`): that code stored it
+    with `SetXYZ` and returned true, so the caller got a key object with `Infinity` set and left-over
+    coordinates. Kept for the counterexample theorem and as the stepping stone of the proofs. -/
+def recoverLegacy (r s m recid : Nat) : Option Point :=
   let rx := if recid &&& 2 ≠ 0 then r + n else r
   if recid &&& 2 ≠ 0 ∧ rx ≥ p then none
   else
@@ -256,6 +260,28 @@ def recover (r s m recid : Nat) : Option Point :=
       let u1 := n - rn * m % n
       let u2 := rn * s % n
       some (ecmult (some (rx % p, y)) u2 u1)
+
+/-- `Signature.recover(pubkey, m, recid)` (current code); `none` = false. After the `ECmult` the code
+    tests `qj.IsInfinity()` and returns false, so the result is never `some none`
+    (`Props.C03.recover_never_infinity`). -/
+def recover (r s m recid : Nat) : Option Point :=
+  let rx := if recid &&& 2 ≠ 0 then r + n else r
+  if recid &&& 2 ≠ 0 ∧ rx ≥ p then none
+  else
+    let y := setXO rx (recid &&& 1 ≠ 0)
+    if !isValid rx y then none
+    else
+      let rn := modInvN r
+      let u1 := n - rn * m % n
+      let u2 := rn * s % n
+      match ecmult (some (rx % p, y)) u2 u1 with
+      | none => none                       -- qj.IsInfinity(): return false
+      | some q => some (some q)
+
+/-- `secp256k1.RecoverPublicKey(r, s, h, recid, &pubkey)` at the pinned snapshot -/
+def recoverPublicKeyLegacy (r s : Nat) (h : Bytes) (recid : Nat) : Option Point :=
+  if r = 0 ∨ r ≥ n ∨ s = 0 ∨ s ≥ n then none
+  else recoverLegacy r s (beVal h) recid
 
 /-- `secp256k1.RecoverPublicKey(r, s, h, recid, &pubkey)` (as called by `btc.Signature.RecoverPublicKey`) -/
 def recoverPublicKey (r s : Nat) (h : Bytes) (recid : Nat) : Option Point :=
@@ -273,7 +299,9 @@ def schnorrVerify? (fixed : Bool) (H : Hash) (pkey sig msg : Bytes) : Option Boo
   if fixed ∧ sig.length ≠ 64 then some false
   else if sig.length < 32 then none                     -- sig[:32] panics
   else
-    let rx := beVal (sig.take 32)                       -- raw limbs, never normalised
+    -- raw limbs, never normalised: the source fact `Gen.C03Facts.schnorrSigRxRaw` (go/cmd/gen_c03,
+    -- re-checked in Props/C03.lean `schnorr_sig_r_compared_raw`) pins exactly this about the Go code
+    let rx := beVal (sig.take 32)
     match parseXOnly fixed pkey with
     | none => if fixed then some false else none        -- legacy: SetB32 panics on a short key
     | some P =>
@@ -288,7 +316,9 @@ def schnorrVerify? (fixed : Bool) (H : Hash) (pkey sig msg : Bytes) : Option Boo
 def schnorrVerify (H : Hash) (pkey sig msg : Bytes) : Bool :=
   (schnorrVerify? true H pkey sig msg).getD false
 
-/-- `SchnorrSign(m, sk, a)` for a 32-byte secret key; `none` = returns nil (or key length ≠ 32). -/
+/-- `SchnorrSign(m, sk, a)`; `none` = returns nil. The current code starts with
+    `if len(sk) != 32 { return nil }` (fix 5acc1e66), so `none` for every other key length is what the
+    code does, for ALL (message, key, aux) byte strings. -/
 def schnorrSign (H : Hash) (m sk a : Bytes) : Option Bytes :=
   if sk.length ≠ 32 then none
   else
@@ -312,6 +342,18 @@ def schnorrSign (H : Hash) (m sk a : Bytes) : Option Bytes :=
             let s := (e * beVal d + k) % n
             let res := beBytes 32 rx ++ beBytes 32 s
             if schnorrVerify H (beBytes 32 px) res m then some res else none
+
+/-- `SchnorrSign` AT THE PINNED SNAPSHOT had no length test on `sk`. This is the condition under which
+    that code PANICKED (index out of range): key value in [1, n−1], public point with even Y (so
+    `d = sk`, the slice as it came) and a slice shorter than the 32 bytes of the aux hash that the loop
+    `for i := range t { t[i] ^= d[i] }` runs over. (With odd Y, `d = get_n_minus(sk)` has 32 bytes and
+    the code went on; a longer slice with leading zeros signed with a nonce derived from `sk[:32]`.) -/
+def schnorrSignLegacyPanics (sk : Bytes) : Bool :=
+  let d0 := beVal sk
+  if d0 = 0 ∨ d0 ≥ n then false
+  else match mul d0 G with
+    | none => false
+    | some (_, py) => py % 2 == 0 && decide (sk.length < 32)
 
 /-- `ECPublicTweakAdd` + `XOnlyPubkeyTweakAddCheck` + `CheckPayToContract`; `none` = panic (legacy) -/
 def checkPayToContract? (fixed : Bool) (mKeydata base hash : Bytes) (parity : Bool) : Option Bool :=
